@@ -166,6 +166,45 @@ macro_rules! words {
                     $name, ["no step", "one next()", "one next_back()"][pre as usize], last, cnt, want_last, hi - lo, if alias { " - an entry was yielded a second time (a second live reference to the same entry)" } else { "" }, $expect
                 ));
             }
+            // internal iteration in both directions (fold / rfold, what for_each, rev().for_each, rev().last use)
+            {
+                let fwd: Vec<Ent> = {
+                    let mut a = $mk;
+                    if pre == 1 {
+                        a.next();
+                    }
+                    if pre == 2 {
+                        a.next_back();
+                    }
+                    a.fold(Vec::new(), |mut acc, x| {
+                        acc.push(($proj)(x));
+                        acc
+                    })
+                };
+                let bwd: Vec<Ent> = {
+                    let mut b = $mk;
+                    if pre == 1 {
+                        b.next();
+                    }
+                    if pre == 2 {
+                        b.next_back();
+                    }
+                    b.rfold(Vec::new(), |mut acc, x| {
+                        acc.push(($proj)(x));
+                        acc
+                    })
+                };
+                let want_fwd: Vec<Ent> = seq[lo..hi].to_vec();
+                let mut want_bwd = want_fwd.clone();
+                want_bwd.reverse();
+                if fwd != want_fwd || bwd != want_bwd {
+                    let alias = fwd.len() > want_fwd.len() || bwd.len() > want_bwd.len();
+                    $st.bad(format!(
+                        "{}: after {} fold visits {:?} and rfold {:?}, expected {:?} and {:?}{}",
+                        $name, ["no step", "one next()", "one next_back()"][pre as usize], fwd, bwd, want_fwd, want_bwd, if alias && pre > 0 { " - an entry was yielded a second time (a second live reference to the same entry)" } else { "" }
+                    ));
+                }
+            }
         }
     }};
 }
